@@ -70,7 +70,76 @@ func ruleRefusalCensus(p *Prog, r *Report) {
 			}
 		}
 	}
-	r.Floor(rule, 80)
+	// required refusals: what the statement of C12/C16 names must be present
+	// (a deleted check leaves no dead panic behind, so presence is checked too)
+	liveIn := func(fnName string) (fn *ssa.Function, live []*ssa.Panic) {
+		fn = p.Func("ast", fnName)
+		if fn == nil {
+			return nil, nil
+		}
+		in := NewInterp(p)
+		out := in.Run(fn, defaultArgs(fn), nil)
+		for _, b := range fn.Blocks {
+			for _, instr := range b.Instrs {
+				if pn, ok := instr.(*ssa.Panic); ok && out.Frame.Reached(pn) {
+					live = append(live, pn)
+				}
+			}
+		}
+		return
+	}
+	type req struct {
+		fn, what string
+		min      int
+		count    func(fn *ssa.Function, live []*ssa.Panic) int
+	}
+	member := func(fn *ssa.Function, live []*ssa.Panic) int {
+		n := 0
+		for _, pn := range live {
+			if lk, key, mp := membershipGuard(pn); lk != nil && insertsSame(fn, mp, key, lk) {
+				n++
+			}
+		}
+		return n
+	}
+	guardedBy := func(callee string) func(fn *ssa.Function, live []*ssa.Panic) int {
+		return func(fn *ssa.Function, live []*ssa.Panic) int {
+			n := 0
+			for _, pn := range live {
+				if dominatedByCondOn(pn.Block(), callee) {
+					n++
+				}
+			}
+			return n
+		}
+	}
+	var reqs []req
+	for _, f := range []string{"NewListNode", "NewBinaryNode", "NewBooleanNode", "NewIntNode", "NewUintNode", "NewFloatNode"} {
+		reqs = append(reqs, req{f, "a duplicated variable name among the arguments is refused (test-and-insert)", 1, member})
+	}
+	for _, t := range []string{"IntNode", "UintNode", "FloatNode", "BinaryNode", "BooleanNode"} {
+		reqs = append(reqs, req{"(*" + t + ").checkRep", "a malformed variable name is refused", 1, guardedBy("isValidVarName")})
+		reqs = append(reqs, req{"(*" + t + ").checkRep", "a variable position used twice is refused (test-and-insert)", 1, member})
+	}
+	reqs = append(reqs,
+		req{"(*ASCIINode).checkRep", "a malformed variable name is refused", 1, guardedBy("isValidVarName")},
+		req{"(*ListNode).checkRep", "a malformed variable name is refused", 1, guardedBy("isValidVarName")},
+		req{"(*ListNode).checkRep", "a leading ellipsis and a second ellipsis are refused", 2, guardedBy("isEllipsis")},
+		req{"(*ListNode).checkRep", "a position used twice and a name occurring twice in the tree are refused (test-and-insert)", 2, member})
+	for _, q := range reqs {
+		fn, live := liveIn(q.fn)
+		key := fmt.Sprintf("%s:required:ast.%s:%s", rule, q.fn, strings.ReplaceAll(strings.SplitN(q.what, " is ", 2)[0], " ", "_"))
+		if fn == nil {
+			r.unk(rule, key, "", "function ast."+q.fn+" not found")
+			continue
+		}
+		if n := q.count(fn, live); n >= q.min {
+			r.ok(rule, key, p.Pos(fn.Pos()), fmt.Sprintf("%s: %d live refusal(s) of that kind", q.what, n))
+		} else {
+			r.bad(rule, key, p.Pos(fn.Pos()), fmt.Sprintf("ast.%s: %s — but only %d of the %d refusal(s) of that kind are present and reachable", q.fn, q.what, n, q.min))
+		}
+	}
+	r.Floor(rule, 100)
 	r.Note("%s: %d explicit refusals in pkg/ast, %d of them guarded by a membership test", rule, nPanics, nMember)
 }
 
@@ -112,6 +181,50 @@ func insertsSame(fn *ssa.Function, mp, key ssa.Value, lk *ssa.Lookup) bool {
 			if b == lk.Block() || reaches(lk.Block(), b, nil) {
 				return true
 			}
+		}
+	}
+	return false
+}
+
+// dominatedByCondOn: some conditional dominating b tests a value computed
+// from a call of the named module function.
+func dominatedByCondOn(b *ssa.BasicBlock, callee string) bool {
+	fn := b.Parent()
+	for _, d := range fn.Blocks {
+		if d == b || !d.Dominates(b) {
+			continue
+		}
+		iff, ok := d.Instrs[len(d.Instrs)-1].(*ssa.If)
+		if !ok {
+			continue
+		}
+		seen := map[ssa.Value]bool{}
+		var dep func(v ssa.Value, n int) bool
+		dep = func(v ssa.Value, n int) bool {
+			if v == nil || seen[v] || n > 6 {
+				return false
+			}
+			seen[v] = true
+			switch x := v.(type) {
+			case *ssa.Call:
+				if sc := x.Common().StaticCallee(); sc != nil && sc.Name() == callee {
+					return true
+				}
+			case *ssa.UnOp:
+				return dep(x.X, n+1)
+			case *ssa.BinOp:
+				return dep(x.X, n+1) || dep(x.Y, n+1)
+			case *ssa.Phi:
+				for _, e := range x.Edges {
+					if dep(e, n+1) {
+						return true
+					}
+				}
+			}
+			return false
+		}
+		if dep(iff.Cond, 0) {
+			return true
 		}
 	}
 	return false
